@@ -98,4 +98,16 @@ def schedErrCmd (ws : List String) : String :=
 (theorems `C06.after_cancel_no_deadlock`, `producer_steps_decrease`, `next_after_exit_never_blocks`) -/
 def schedCloseCmd (_ : List String) : String := "exited next-returns"
 
+/-- `sched-rec kind G M cycles …`: for every schedule no call blocks (C16.owner_can_always_move),
+the flusher stops after EndTest (C16.no_active_flusher_without_canceler) and the finally persisted
+counter of every cycle is the sum of the increments issued in it (C16.counters_are_sums) -/
+def schedRecCmd (ws : List String) : String :=
+  match ws with
+  | _ :: g :: m :: c :: _ =>
+    match g.toNat?, m.toNat?, c.toNat? with
+    | some g, some m, some c =>
+      s!"ok finals={",".intercalate (List.replicate c (toString (g * m)))} errs=0 flusher-stopped"
+    | _, _, _ => "bad-op"
+  | _ => "bad-op"
+
 end Driver
